@@ -129,8 +129,10 @@ Definition h_evalsha (t : Z) (s : server) (c : Z) (dbi : Z) (ca : cache) (parts 
           match alookup sha ca with
           | None => (FError (bs "NOSCRIPT"), s)
           | Some src =>
-              (* appended by process_normal_command before dispatch, with the connection's database (7ef6fad) *)
-              let aof := if mem_name (bs "EVALSHA") write_commands then s_aof (log_aof_in s dbi parts) else s_aof s in
+              (* appended by process_normal_command before dispatch, with the connection's database (7ef6fad),
+                 as the EVAL of the script the digest names (a8393c5) *)
+              let aof := if mem_name (bs "EVALSHA") write_commands
+                         then s_aof (log_aof_in s dbi (FBulk (bs "EVAL") :: FBulk src :: tail)) else s_aof s in
               match normal_command t s c (evalsha_db dbi) (FBulk (bs "EVAL") :: FBulk src :: tail) None with
               | (r, s1) => (r, set_aof s1 aof)
               end
